@@ -264,7 +264,7 @@ pub fn run(ctx: &Ctx, rep: &mut Report) {
     // directed: every match length x distance class x delta around the budget end / slice end
     let dists = [1usize, 2, 3, 4, 5, 258, 32768];
     let n_directed = 256 * dists.len() as u64; // lengths 3..=258 x distances
-    let n_random = ctx.n(5000, 400_000);
+    let n_random = ctx.n(15_000, 400_000);
     let n_vec = ctx.n(1000, 40_000);
     let reps = if ctx.thorough() { 6 } else { 1 };
     for k in ctx.cases(n_directed * reps + n_random + n_vec) {
